@@ -391,6 +391,23 @@ func genNumber(t *rapid.T, label string, lim int) string {
 	default:
 		s = strconv.Itoa(rapid.IntRange(0, 48).Draw(t, label+".i"))
 	}
+	if lim >= 1000 && rapid.IntRange(0, 39).Draw(t, label+".long") == 0 {
+		// digit strings far longer than any integer type holds: a whole number of 19-30 digits, or
+		// a fraction with as many decimals
+		n := rapid.IntRange(19, 30).Draw(t, label+".ndigits")
+		ds := make([]byte, n)
+		for i := range ds {
+			ds[i] = byte('0' + rapid.IntRange(0, 9).Draw(t, label+".digit"))
+		}
+		if ds[0] == '0' {
+			ds[0] = '7'
+		}
+		if rapid.Bool().Draw(t, label+".longfrac") {
+			s = "3." + string(ds)
+		} else {
+			s = string(ds)
+		}
+	}
 	// redundant leading zeros in the integer part are still digits
 	if s[0] != '.' && rapid.IntRange(0, 11).Draw(t, label+".lead0") == 0 {
 		s = strings.Repeat("0", rapid.IntRange(1, 3).Draw(t, label+".nlead")) + s
